@@ -261,7 +261,7 @@ pub fn inject(op: &OpDef, w: &mut Wallet, fx: &Fixture, pre: &db::Snapshot, m: &
 
 fn tier_ops(tier: Tier) -> Vec<&'static str> {
     match tier {
-        Tier::Quick => vec!["scan1@mid", "tip@fresh", "truncate@mid", "lock@mid", "create_account@fresh", "roots@fresh", "next_address@mid", "tip_beyond@mid"],
+        Tier::Quick => vec!["scan1@mid", "tip@fresh", "truncate@mid", "lock@mid", "create_account@fresh", "sapling_roots@fresh", "orchard_roots@fresh", "next_address@mid", "tip_beyond@mid"],
         Tier::Thorough => vec![],
     }
 }
